@@ -28,7 +28,7 @@ func init() {
 				"R5: the conversions that feed the servers, the cache and the connection limiter copy each validated setting into the constructor field of the same meaning (a wrong-field copy would put an unvalidated value where a validated one is assumed).",
 			NotCovered: "hazards other than the recognised ones (non-positive quantities, family bounds, division by zero); validation " +
 				"of lists, URLs and cross-references between sections; the environment variables.",
-			Rules: map[string]string{"C20-R20": "cmd.Main validates the configuration before anything that is documented to need a valid one (validateFromValidConfig) reads it", "C20-R18": "tlsConfig.validate: an absent section exactly when no server needs TLS; a present one needs at least one certificate, valid certificates and valid wildcards", "C20-R19": "builder.initGRPCMetrics creates the gRPC metrics exactly when profiles, the DNS-check key-value store or the allowlist use the protobuf backend (their clients get the field as an interface value)", "C20-R17": "validateDNSCrypt accepts exactly the configurations with provider name, both keys and one of the two implemented encryption schemes", "C20-R16": "a duration setting for which validation accepts zero reaches context.WithTimeout only behind a comparison with zero (a zero timeout is an expired context, not no timeout)", "C20-R15": "a configuration section whose validate accepts a nil receiver is read only after a nil test (receiver in its own methods, loaded pointer elsewhere in cmd)", "C20-R14": "allocations sized by a configuration setting: the setting has an upper bound in validation (known findings: the rate-limit counts and the TCP pipeline count have none)", "C20-RC": "class rules (error chains, shadowed results, character classes, crossed arguments, pool constructors, array pools, loop completeness, loop-carried buffers, replacing setters, complete clones, Grow arithmetic, pooled-buffer escape, sorted searches, fresh decode targets, per-iteration objects, whole-message copies, codec guards) over the packages this property rests on", "C20-R13": "server.bindData: interface bindings without an interface-listener manager are rejected with an error", "C20-R12": "cacheConfig.toInternal: cache type none exactly when size is 0; dnssvc.newListenConfig wraps a listen configuration with the connection limiter only when there is one", "C20-R11": "newServerDNS accepts exactly the documented idle-timeout interval [0, MaxTCPIdleTimeout] (interval derived from the edges into the panic)", "C20-R1": "zero / negative rejection of every numeric setting", "C20-R2": "subnet key length family bounds",
+			Rules: map[string]string{"C20-R21": "every key path of the documented sample configuration config.dist.yaml is named by a yaml tag reachable from cmd.configuration (types that decode themselves, foreign types and maps are leaves): no documented setting is silently ignored", "C20-R20": "cmd.Main validates the configuration before anything that is documented to need a valid one (validateFromValidConfig) reads it", "C20-R18": "tlsConfig.validate: an absent section exactly when no server needs TLS; a present one needs at least one certificate, valid certificates and valid wildcards", "C20-R19": "builder.initGRPCMetrics creates the gRPC metrics exactly when profiles, the DNS-check key-value store or the allowlist use the protobuf backend (their clients get the field as an interface value)", "C20-R17": "validateDNSCrypt accepts exactly the configurations with provider name, both keys and one of the two implemented encryption schemes", "C20-R16": "a duration setting for which validation accepts zero reaches context.WithTimeout only behind a comparison with zero (a zero timeout is an expired context, not no timeout)", "C20-R15": "a configuration section whose validate accepts a nil receiver is read only after a nil test (receiver in its own methods, loaded pointer elsewhere in cmd)", "C20-R14": "allocations sized by a configuration setting: the setting has an upper bound in validation (known findings: the rate-limit counts and the TCP pipeline count have none)", "C20-RC": "class rules (error chains, shadowed results, character classes, crossed arguments, pool constructors, array pools, loop completeness, loop-carried buffers, replacing setters, complete clones, Grow arithmetic, pooled-buffer escape, sorted searches, fresh decode targets, per-iteration objects, whole-message copies, codec guards) over the packages this property rests on", "C20-R13": "server.bindData: interface bindings without an interface-listener manager are rejected with an error", "C20-R12": "cacheConfig.toInternal: cache type none exactly when size is 0; dnssvc.newListenConfig wraps a listen configuration with the connection limiter only when there is one", "C20-R11": "newServerDNS accepts exactly the documented idle-timeout interval [0, MaxTCPIdleTimeout] (interval derived from the edges into the panic)", "C20-R1": "zero / negative rejection of every numeric setting", "C20-R2": "subnet key length family bounds",
 				"C20-R3": "section table completeness", "C20-R4": "divisor provenance", "C20-R5": "validated settings are copied into the constructor fields of the same meaning",
 				"C20-R8": "builder flags computed over all server groups accumulate (a later group cannot switch off what an earlier group needs, e.g. the profile database)",
 				"C20-R6": "DDR record validation: DoH port needs a path, hints must be of their address family"},
@@ -178,6 +178,10 @@ var c20Skip = map[string]string{
 }
 
 func runC20(c *an.Ctx) {
+	// ---- R21: the documented settings are read by the configuration structure
+	if n := sharedDistConfigKeys(c, "C20-R21"); n < 150 {
+		c.Und("C20-R21", "keys of config.dist.yaml", token.NoPos, "only %d key paths examined", n)
+	}
 	classSweep(c, "C20")
 	// ---- R15: sections that validation lets be absent are nil-tested before they are read
 	if n := c20OptionalSections(c, "C20-R15"); n < 5 {
